@@ -61,9 +61,27 @@ fn run_clean(cfg: &Cfg, src: &str, tree_toks: &str) -> Outcome {
     // (a) the allow-list predicate on the output tree
     pol.walk(&after, 0, "output tree", &[], &mut t3);
     // (b) "as seen by an HTML parser": re-parse the serialised output with the real parser
+    // If the configuration (no mode, an allow-list addition, or a replacement such as `code` -> `script`)
+    // lets a raw-text / escapable-raw-text element survive, HTML itself does not preserve the tree across
+    // serialise -> parse (element children of <script> become text, an inner `</script>` ends it early,
+    // what follows is parsed as markup): the parser-level reading is then meaningless by construction of
+    // the language, and the property (strict / compat allow lists) never keeps such an element. The
+    // output TREE was checked in (a) either way.
+    fn has_rawtext(f: &[N]) -> bool {
+        f.iter().any(|n| match n {
+            N::E { name, ch, .. } => {
+                ["script", "style", "iframe", "xmp", "noembed", "noframes", "noscript", "plaintext", "textarea", "title", "template"]
+                    .contains(&name.as_str())
+                    || has_rawtext(ch)
+            }
+            _ => false,
+        })
+    }
     let re = dump(&Html::parse(&out_str));
     let exempt: &[&str] = if cfg.is_plain() { &[] } else { &["tbody", "tr", "colgroup"] };
-    pol.walk(&re, 0, "re-parsed output", exempt, &mut t3);
+    if !has_rawtext(&after) {
+        pol.walk(&re, 0, "re-parsed output", exempt, &mut t3);
+    }
     // (c) text outside removed subtrees is kept, in order; content of removed elements is gone.
     // The property fixes two bounds, not the exact text: everything outside subtrees that are
     // removed by name / nested at or beyond the maximum depth (counting all element ancestors of
